@@ -511,10 +511,11 @@ def no_layout_flow(F, rep):
                    "`%s` (a vector of tuples containing a span) is only iterated in %s (%s); its span element is checked through the "
                    "element patterns" % (b["name"], last(fn["_path"], 2), uses), fn["sp"])
             continue
-        allowed = last(fn["_path"], 2) == "IRCodeGen::statement" and arm == "Unreachable"
-        rep.ob("NO-LAYOUT-FLOW", "%s|%s.%s" % (last(fn["_path"], 2), arm, b["name"]), (not used) or allowed,
+        unreach = last(fn["_path"], 2) == "IRCodeGen::statement" and arm == "Unreachable"
+        rep.ob("NO-LAYOUT-FLOW", "%s|%s.%s" % (last(fn["_path"], 2), arm, b["name"]), not used,
                "span binding `%s` (%s arm) in %s is %s" % (b["name"], arm, last(fn["_path"], 2),
-                                                            "used for the line of `<!>` (allowed)" if used and allowed else
+                                                            "written into the run-time message of `<!>` (`Reached unreachable code on line N`): a "
+                                                            "blank line or a comment above a `<!>` changes the emitted Lua" if used and unreach else
                                                             "used: layout can reach the generated code" if used else "unused"), fn["sp"])
     proj = []
     for fn, node in nonint.field_projections(F, lambda t: t.replace("&", "").strip().endswith("Span")):
